@@ -77,6 +77,7 @@ type Step struct {
 // Expect carries what the generator knows about a call independently of go-snaps.
 type Expect struct {
 	Invalid bool       `json:"invalid,omitempty"` // input is not valid JSON/YAML or not marshalable
+	Unwritable bool    `json:"unwritable,omitempty"` // the snapshot location cannot be created (parent is a regular file)
 	MFail   [][2]string `json:"mfail,omitempty"`  // failing matchers (name, path)
 	VID     string     `json:"vid,omitempty"`     // value identity when the text is only known to go-snaps
 	Inj     bool       `json:"inj,omitempty"`     // VID is injective within its family
